@@ -70,10 +70,15 @@ func init() {
 }
 
 func runC20(p *chk.Prog, r *chk.Report) {
+	// a Set is never dropped on the strength of what another goroutine has sent so far (PENDING, shared with C17)
+	c17Pending(p, r)
 	c05Build(p, r)
 	c20Entry(p, r)
 	x := r.Rule("LOCK-GUARDED", "C locks (must-hold lockset dataflow)", "every access to a field of the frozen guarded-by table (Allocator.poolToCounters / countersMutex; bgpController.activeAds / activeAdsMutex; Announce.{nodeInterfaces,arps,ndps,ips,ipRefcnt} and ndpResponder.solicitedNodeGroups / Announce's RWMutex; SpeakerList.mlSpeakerIPs / mlMux) is made with the lock held, in write mode for writes; constructors are exempt until the object is shared", 40)
 	guardedRule(x, p, guardTable)
+	// the reconciler's desired configuration, written by the BGP handlers through UpdateConfig and read by the worker (row shared with C15)
+	y := r.Rule("LOCK-GUARDED-K8S", "C locks (must-hold lockset dataflow)", "FRRK8sReconciler.desiredConfiguration is accessed only under the reconciler's mutex", 2)
+	guardedRule(y, p, []guardRow{c19Table[2]})
 	c20NoBlock(p, r)
 	c20Leak(p, r)
 	c20Reentrant(p, r)
